@@ -110,6 +110,9 @@ def generate(rng, quick):
             q2 = dict(q, n=0)
             items.append((q2, {"kind": "resp", "status": status, "body": body, "trunc": trunc, "oneway": 0,
                                "pair_of_previous": True}))
+        if rng.random() < 0.5 or body in (b"AAAAAA==", b"AAAAAA==\n"):
+            # the same response met by a two-way FStandardClient.Call: an error or a result, never a crash
+            items.append((dict(q, n=2), {"kind": "call", "status": status, "body": body, "trunc": trunc}))
     # 3. server handler size header
     for i in range(250 if quick else 3000):
         limit = rng.choice(LIMITS)
@@ -204,6 +207,13 @@ def run(ctx):
                 cases.append([30, status, eff_body, 1 if m["trunc"] else 0, code,
                               bytes.fromhex(r.get("payload") or "")])
                 cmeta.append((q, m, r))
+        elif m["kind"] == "call":
+            # (a crash was reported above) a two-way call answered by an empty frame must fail, not return nil
+            status, body = m["status"], m["body"]
+            eff_body = b"" if status in (204, 304) else body
+            if status < 300 and not m["trunc"] and STRICT_B64.match(eff_body) and \
+                    base64.b64decode(eff_body, validate=True) == b"\0\0\0\0" and r.get("code") < 1000:
+                bad("a two-way call answered by an empty frame returned without an error", q, m, r)
         else:
             st, ref, outlen = r.get("code"), r.get("end"), r.get("outlen")
             limit, clen = m["limit"], m["clen"]
